@@ -85,7 +85,10 @@ func init() {
 			if s == nil || s.InTeardown() {
 				return
 			}
-			s.Park(kind, s.ActorName(-1), -1, "", func() bool {
+			// named after the connection the goroutine works on (known in the instrumented build), so
+			// that two goroutines waiting for their locks in the same step have a stable order
+			conn := s.GoroutineConn()
+			s.Park(kind, s.ActorName(conn), conn, "", func() bool {
 				if m.TryLock() {
 					m.Unlock()
 					return true
